@@ -32,7 +32,8 @@ def gauss_truth(g, thr_sd=1.0):
 
 def generate(rng, tier):
     R = 32 if tier == "quick" else 128
-    seeds = lambda: [str(rng.getrandbits(63)) for _ in range(R)]
+    # full 64-bit range (half of the seeds have the top bit set), plus the extremes
+    seeds = lambda: [str(rng.getrandbits(64)) for _ in range(R - 2)] + [str((1 << 64) - 1 - rng.randint(0, 50)), str((1 << 63) + rng.randint(0, 50))]
     cases = []
     thr, truth = gauss_truth(G_MH)
     for f in (["f64"] if tier == "quick" else ["f64", "f32"]):
